@@ -27,7 +27,7 @@ def block(text, indent=4):
 class TreeRunner:
     """one symbolic document shared by every tree evaluated through it"""
 
-    def __init__(self, ck, bounds=None, uni=None, as_object=False):
+    def __init__(self, ck, bounds=None, uni=None, as_object=False, summarise=None):
         self.ck = ck
         self.prog = ck.program()
         self.imp = models_tau.TreeImporter(self.prog)
@@ -36,7 +36,7 @@ class TreeRunner:
         self.doc = SymDoc(self.uni, 'doc', self.bounds)
         if as_object:
             self.doc.as_object = True
-        self.ex = ck.new_engine(self.prog, uni=self.uni)
+        self.ex = ck.new_engine(self.prog, uni=self.uni) if summarise is None else ck.new_engine(self.prog, uni=self.uni, summarise=summarise)
 
     def evaluate(self, rj):
         """rj: bridge 'load' answer -> dict(res, panic, panics, finds, paths)"""
